@@ -43,13 +43,13 @@ TIMES = [0, 2, 7, 10, 99, 100, 1000, 99998, 100000, 999998, 999999, 1000000, 100
 
 def gen(rng, tier, idx):
     r = rng.random()
-    if r < 0.30:
+    if r < 0.28:
         return gen_roundtrip(rng)
-    if r < 0.55:
+    if r < 0.52:
         return gen_restart(rng)
-    if r < 0.70:
+    if r < 0.66:
         return gen_params(rng)
-    if r < 0.76:
+    if r < 0.70:
         return gen_twojobs(rng)
     return gen_driver(rng, tier)
 
@@ -76,7 +76,7 @@ def gen_roundtrip(rng):
     if rng.random() < 0.2:
         times.append(times[0])        # the same checkpoint written again: the later content must be the one on disk
     for t in times:
-        wr = dict(layout=rng.choice(names), t=t, name=rng.choice(['grid', 'grid', 'phi']))
+        wr = dict(layout=rng.choice(names), t=t, name=rng.choice(['grid', 'grid', 'phi', 'species_1', 'rho_2d']))
         if len(names) > 1 and rng.random() < 0.3:
             # the layout is reached through save / layout change / restore rather than through setLayout
             wr['via_restore'] = rng.choice([n for n in names if n != wr['layout']])
